@@ -45,6 +45,9 @@ PROGRAMS = {
     'loop-in-try-finally': "try:\n    while True:\n        pass\nfinally:\n    done = True\n",
     # one call into the interpreter's C code that takes many times the limit and never gives the interpreter lock back
     # (how many: see long_call_size(); it is to take about 1.2 s on the machine the check runs on, four times the longest limit used)
+    # the program's own exception class describes itself with a loop that never ends (pedal asks for that text while it records
+    # the failure)
+    'endless-loop-in-the-__str__-of-its-exception': "class Stuck(Exception):\n    def __str__(self):\n        while True:\n            pass\nraise Stuck('x')\n",
     'one-long-builtin-call': "total = sum(range(LONG_CALL_SIZE))\nprint('total is', total)\n",
 }
 BLOCK_FOREVER = "import threading\nlock = threading.Lock()\nlock.acquire()\nlock.acquire()\n"
@@ -421,10 +424,18 @@ def run_case(ctx, case):
 
     def hang_watchdog():
         # the grader thread has not come back long after the limit: decide from WHERE it is stuck, not from the clock
-        if returned.wait(allowed + 15 + (GATE_TIMEOUT if inter != 'unforced' else 0)):
+        if returned.wait((allowed + 15 + (GATE_TIMEOUT if inter != 'unforced' else 0)) if prog != 'endless-loop-in-the-__str__-of-its-exception' else allowed + 4):
             return
         frame = sys._current_frames().get(main_ident)
         stack = traceback.extract_stack(frame) if frame is not None else []
+        if prog == 'endless-loop-in-the-__str__-of-its-exception' and [f for f in stack if f.name == 'abandon_execution']:
+            # the grader's thread is waiting for the lock that the student's thread holds while it runs the program's __str__
+            ctx.case(case_label(case))
+            ctx.count('timeouts_observed')
+            ctx.violation('C14|call-does-not-return|grader-waits-for-the-lock-held-while-the-programs-own-__str__-runs|%s' % entry, public(case),
+                          'the threaded call has not returned %.0fs after a %.2fs limit; the grader thread is inside %s' %
+                          (time.time() - t0, allowed, ' > '.join('%s:%s:%d' % (f.filename.split('/')[-1], f.name, f.lineno) for f in stack[-4:])))
+            ctx.emergency_dump_and_exit()
         in_pedal_timeout = [f for f in stack if f.filename.endswith('pedal/sandbox/timeout.py')]
         unbounded_join = [f for f in stack if f.filename.endswith('threading.py') and f.name == 'join']
         where = ' > '.join('%s:%s:%d' % (f.filename.split('/')[-1], f.name, f.lineno) for f in stack[-6:])
@@ -1041,6 +1052,8 @@ def all_cases(ctx):
                     continue
                 if prog == 'one-long-builtin-call' and (inter != 'unforced' or entry == 'import'):
                     continue        # (nothing can be ordered while it runs: no other thread gets to run at all)
+                if prog == 'endless-loop-in-the-__str__-of-its-exception':
+                    continue        # (run once, as the last case of one worker: see run())
                 if inter == 'outer-interrupt-before-inner' and entry != 'import':
                     continue
                 if inter == 'zombie-between-numbering-and-recording-of-next' and (entry == 'import' or prog == 'swallow-then-finish'):
@@ -1104,6 +1117,9 @@ def run(ctx):
             case['allowed_time'] = rng.choice([0.05, 0.1, 0.2])
             case['next'] = rng.sample([k for k in NEXT_KINDS], 2)
             run_deadline_case(ctx, case)
+    if ctx.shard == ctx.nshards - 1:
+        ctx.at_end = {'program': 'endless-loop-in-the-__str__-of-its-exception', 'entry': 'run', 'interleaving': 'unforced', 'allowed_time': 0.2,
+                      'next': ['run-print', 'run-input', 'run-long'], 'history': 'fresh', 'tracer': 'none', 'threaded_via': 'argument', 'report': 'default'}
     for rep in range(ctx.pick(1, 4)):
         for c in preparing_cases()[ctx.shard::ctx.nshards]:
             if ctx.time_left() < 12:
@@ -1115,6 +1131,9 @@ def run(ctx):
             case['next'] = rng.sample([k for k in NEXT_KINDS if c['entry'] != 'run' or k.startswith('run-')], 2)
             case['tracer'] = PREPARING[c['where']][2] or rng.choice(['none', 'none', 'native', 'calls', 'coverage'])
             run_preparing_case(ctx, case)
+    if getattr(ctx, 'at_end', None):
+        # (if the call does not come back the worker ends here: nothing may come after this case)
+        run_case(ctx, ctx.at_end)
 
 
 def preparing_cases():
